@@ -153,7 +153,7 @@ def exemption_checks(cx, cn, used):
         cx.check('C20.Z1', len(es) >= 2 and not bad, f.path, 'stores', 'escape-digits-are-octal-digits', '; '.join(s.term[:80] for s in bad) or str(len(es)))
     f = prog.fns.get(L + 'Lexer::escape_seq')
     if f:
-        cl = [g for g in prog.find(r'zone_lex::Lexer::escape_seq::\{closure#\d+\}$')]
+        cl = [g for g in prog.find(r'zone_lex::Lexer::escape_seq::\{closure[^}]*\}$')]
         okc = [g for g in cl if any(re.search(r'methods::to_digit\(arg2,10\)', s.term) for s in cx.calls(g, r'to_digit$'))]
         cx.check('C20.Z1', len(okc) == 3, f.path, 'closures', 'escape-digits-are-decimal-digits', f'{len(okc)} of {len(cl)} closures')
     # include-depth
@@ -389,9 +389,9 @@ def inheritance(cx):
     cx.check('C20.S1', len(some) == 1 and len(none) == 1, f.path, 'stores', 'type-reset-per-line-and-set-from-mnemonic', '; '.join(s.term[:60] for s in rt))
     # Context::insert builds the record from exactly these
     rec = cx.calls(ins, r'Record<R>::from_rdata$|Record::from_rdata$')
-    NAME = r'try\(Option::ok_or_else\(arg1\.current_name,closure:Context::insert::\{closure#\d+\}\)\)@Continue\.0'
-    TTLT = r'try\(Option::ok_or_else\(Ttl::take\(arg1\.ttl\),closure:Context::insert::\{closure#\d+\}\)\)@Continue\.0'
-    RD = r'try\(RData::from_tokens\(try\(Option::ok_or_else\(arg1\.rtype,closure:Context::insert::\{closure#\d+\}\)\)@Continue\.0,Iterator::map\(slice::iter\(arg2\),fn:<String as AsRef<str>>::as_ref\),arg1\.origin\)\)@Continue\.0'
+    NAME = r'try\(Option::ok_or_else\(arg1\.current_name,closure:Context::insert::\{closure[^}]*\}\)\)@Continue\.0'
+    TTLT = r'try\(Option::ok_or_else\(Ttl::take\(arg1\.ttl\),closure:Context::insert::\{closure[^}]*\}\)\)@Continue\.0'
+    RD = r'try\(RData::from_tokens\(try\(Option::ok_or_else\(arg1\.rtype,closure:Context::insert::\{closure[^}]*\}\)\)@Continue\.0,Iterator::map\(slice::iter\(arg2\),fn:<String as AsRef<str>>::as_ref\),arg1\.origin\)\)@Continue\.0'
     for s in rec:
         cx.check('C20.S1', bool(re.match(rf'^Record::from_rdata\({NAME},{TTLT},{RD}\)$', s.term)), ins.path, s.key(), 'record=(current_name,ttl.take(),from_tokens(rtype,parts,origin))', s.term[:300], s.loc)
     cx.check('C20.S1', len(rec) == 1, ins.path, 'calls', 'single-record-construction', str(len(rec)))
@@ -454,7 +454,7 @@ def tables(cx, cn):
     # every domain name embedded in RDATA is resolved against the origin
     nn = 0
     for p in sorted(cn):
-        if not re.search(r'::from_tokens(::\{closure#\d+\})*$', p):
+        if not re.search(r'::from_tokens(::\{closure[^}]*\})*$', p):
             continue
         g = prog.fns[p]
         for s in cx.calls(g, r'Name::(parse|from_str|from_ascii|from_utf8|from_str_relaxed|from_tokens)$|Name as core::str::traits::FromStr>::from_str$'):
